@@ -503,7 +503,7 @@ class ParameterCollection(metaclass=_ParameterCollectionType):
             if isinstance(retainedValue, np.ndarray) or isinstance(
                 currentValue, np.ndarray
             ):
-                if (retainedValue != currentValue).any():
+                if not np.array_equal(retainedValue, currentValue):
                     setattr(self, pd.fieldName, currentValue)
                     pd.assigned = SINCE_ANYTHING
                     self.assigned = SINCE_ANYTHING
